@@ -273,9 +273,18 @@ static void* root(void* x) {
     const long c = atomic_load(&targets_created), d = vp_get(vp_counter("fibers_destroyed")) - destroyed0;
     if (c == d) break;
     fiber_yield();
-    if (++spins > 2000000) {
-      vp_violation("C04", "reclaim:never", "%ld fibers were created, joined or detached and finished, but only %ld were reclaimed", c, d);
-      break;
+    // "never" is a state, not a number of yields: every other kernel thread idle, nothing queued, nothing pending - and still a
+    // finished, joined or detached fiber has not been reclaimed (seen on three looks; the wall-clock watchdog covers the rest)
+    if (++spins > 200000 && (spins % 50000) == 0) {
+      static int looks;
+      if (vp_ghost_others_idle() && vp_get(vp_counter("fibers_destroyed")) - destroyed0 == d) {
+        if (++looks >= 3) {
+          vp_violation("C04", "reclaim:never", "%ld fibers were created, joined or detached and finished, but only %ld were reclaimed although every other kernel thread is idle and nothing is queued", c, d);
+          break;
+        }
+      } else {
+        looks = 0;
+      }
     }
   }
   atomic_store(&me->where, (const char*)0);
